@@ -1,7 +1,8 @@
 (* C14 - facts about the schemas regenerated from /repo (coq/gen/C14Schemas.v):
    finite checks by vm_compute, lifted with forallb_forall. *)
 From VF.C14 Require Import Rlp RlpProofs Typed TypedProofs Model ModelProofs.
-From VF.gen Require Import C14Schemas.
+From Coq Require Import String.
+From VF.gen Require Import C14Schemas C14CallSites.
 Local Open Scope N_scope.
 
 (* every regenerated schema uses only supported, well-formed constructors *)
@@ -81,3 +82,57 @@ Proof.
   { unfold all_schemas. right. right. left. reflexivity. }
   specialize (H _ _ _ _ Hin Hd). rewrite He in H. discriminate.
 Qed.
+
+(* ---- the decode call sites of the working tree (coq/gen/C14CallSites.v) -------------------- *)
+(* the sites that read ONE value from a stream and tolerate what follows, pinned:
+   a site that turns tolerant (e.g. ucon.Decode switching from rlp.DecodeBytes to
+   rlp.Decode on a reader) or a new tolerant site breaks this lemma.  The ones
+   listed here are the open finding "trailing bytes tolerated". *)
+Definition tolerant_sites : list (string * string) :=
+  map (fun x => fst x) (filter (fun x => negb (snd x =? 0)) call_sites).
+Lemma tolerant_sites_exact : tolerant_sites = [
+  ("consensus/ucon/vote_cache.go", "ReadVoteData");
+  ("core/genesis.go", "decodePrealloc");
+  ("core/genesis.go", "decodeValidators");
+  ("core/rawdb/accessors_chain.go", "ReadBody");
+  ("core/rawdb/accessors_chain.go", "ReadHeader");
+  ("core/state/iterator.go", "NodeIterator.step");
+  ("core/state/sync.go", "NewStateSync");
+  ("core/tx_journal.go", "txJournal.load");
+  ("p2p/message.go", "Msg.Decode");
+  ("you/handler.go", "ProtocolManager.handleBlockBodiesMsg");
+  ("you/handler.go", "ProtocolManager.handleGetBlockBodiesMsg");
+  ("you/handler.go", "ProtocolManager.handleGetBlockMsg");
+  ("you/handler.go", "ProtocolManager.handleGetHeadersMsg");
+  ("you/handler.go", "ProtocolManager.handleGetNodeDataMsg");
+  ("you/handler.go", "ProtocolManager.handleGetReceiptsMsg");
+  ("you/handler.go", "ProtocolManager.handleNewBlockHashMsg");
+  ("you/handler.go", "ProtocolManager.handleNewBlockMsg");
+  ("you/handler.go", "ProtocolManager.handleNewTxMsg");
+  ("you/handler.go", "ProtocolManager.handleNodeDataMsg");
+  ("you/handler.go", "ProtocolManager.handleReceiptsMsg");
+  ("you/handler.go", "ProtocolManager.handleReceiveHeadersMsg");
+  ("you/peer.go", "peer.readStatus");
+  ("you/ucon_handler.go", "UConProtocolManager.handleMsg")]%string.
+Proof. vm_compute. reflexivity. Qed.
+
+(* the entry points of the consensus envelope, its payloads, the header fields and
+   the staking transaction data insist on exactly one value *)
+Definition strict_site (file fn : string) : bool :=
+  existsb (fun x => String.eqb (fst (fst x)) file && String.eqb (snd (fst x)) fn && (snd x =? 0)) call_sites
+  && negb (existsb (fun x => String.eqb (fst (fst x)) file && String.eqb (snd (fst x)) fn && negb (snd x =? 0)) call_sites).
+Lemma consensus_entry_points_strict :
+  forallb (fun p => strict_site (fst p) (snd p))
+    [("consensus/ucon/types.go", "Decode"); ("consensus/ucon/types.go", "Message.DecodePayload");
+     ("consensus/ucon/block_consensus_data.go", "ExtractConsensusData");
+     ("consensus/ucon/ucon_validators.go", "ExtractUconValidators");
+     ("staking/tx_converter.go", "TxConverter.ApplyMessage");
+     ("staking/slash.go", "Staking.replaySlashing")]%string = true.
+Proof. vm_compute. reflexivity. Qed.
+
+(* a valid transaction followed by one zero byte: rejected by rlp.DecodeBytes,
+   accepted by a stream-style site with one byte left unread *)
+Lemma w_trailing : decode_t S_types_Transaction (w_tx_re ++ [0]) = None /\
+  exists v, decode_stream_t S_types_Transaction (w_tx_re ++ [0]) = Some (v, [0]) /\
+            decode_t S_types_Transaction w_tx_re = Some v.
+Proof. split; [vm_compute; reflexivity|]. eexists. split; vm_compute; reflexivity. Qed.
